@@ -239,3 +239,53 @@ def model_zero_over_zero(den_term, den_rf) -> bool:
     if dom == "J":  # primitive-level families
         return True
     return False
+
+
+# ------------------------------------------------------------------ bounds
+NONNEG = ("0", ">0", ">=0")
+
+
+def upper_bounds(t, nz: Normalizer) -> list:
+    """terms u (as RF) with  t <= u  under the admissible-domain facts (BND, DESIGN 1.4)"""
+    F = nz.facts
+    out = [nz.rf(t)]
+    k = t[0]
+
+    def add(r):
+        if not any(r.equals(x) for x in out):
+            out.append(r)
+
+    if k == "min":
+        for x in (t[1], t[2]):
+            for u in upper_bounds(x, nz):
+                add(u)
+    elif k in ("max", "ite"):
+        a, b = (t[1], t[2]) if k == "max" else (t[2], t[3])
+        ua, ub = upper_bounds(a, nz), upper_bounds(b, nz)
+        for u in ua:
+            if any(u.equals(v) for v in ub):
+                add(u)
+    elif k == "mul":
+        for c, x in ((t[1], t[2]), (t[2], t[1])):
+            rc = nz.rf(c)
+            sc = F.sign(rc)
+            if sc in NONNEG:
+                for u in upper_bounds(x, nz):
+                    add(rc * u)  # c >= 0 and x <= u  =>  c x <= c u
+                if F.sign(E.rconst(1) - rc) in NONNEG and F.sign(nz.rf(x)) in NONNEG:
+                    for u in upper_bounds(x, nz):
+                        add(u)  # 0 <= c <= 1, x >= 0  =>  c x <= x <= u
+    elif k in ("s", "sa"):
+        one = E.rconst(1)
+        if F.sign(one - out[0]) in NONNEG:
+            add(one)
+    return out
+
+
+def leq(a, b, nz: Normalizer) -> bool:
+    return nz.facts.sign(b - a) in NONNEG
+
+
+def bounded_by(t, target, nz: Normalizer) -> bool:
+    tr = nz.rf(target)
+    return any(leq(u, tr, nz) for u in upper_bounds(t, nz))
